@@ -21,7 +21,7 @@ type Scope struct {
 
 // asciiWords never contain multi-byte text (used where a byte/code-point distinction
 // belongs to another property).
-var asciiWords = []string{"alpha", "beta", "Gamma", "delta x", "eps", "Zeta", "eta-1", "theta", "io", "kap pa", "lam", "mu", "q", "x_y"}
+var asciiWords = []string{"alpha", "beta", "Gamma", "delta x", "eps", "Zeta", "eta-1", "theta", "io", "kap pa", "lam", "mu", "q", "x_y", "nan", "NaN", "inf", "Infinity", "-inf"}
 
 // NewScope builds a random context.
 func NewScope(r *core.Rand) *Scope {
@@ -322,6 +322,11 @@ func (g *ExprGen) intListAtom() mt.Expr {
 	}
 	if len(sc.Maps) > 0 && r.P(1, 3) {
 		return mt.Attr{E: mt.V(sc.Maps[r.Intn(len(sc.Maps))]), Name: "l"}
+	}
+	if r.P(1, 6) {
+		// a list of more than 50 integers (the engine treats long lists differently when it looks a value up)
+		a := int64(r.Range(-5, 20))
+		return mt.Call{Name: "range", Args: []mt.Expr{mt.I(a), mt.I(a + int64(r.Range(51, 90)))}}
 	}
 	k := r.Range(1, 4)
 	items := make([]mt.Expr, k)
